@@ -139,7 +139,7 @@ def make_poly_class(pym):
             for j, cj in enumerate(s['c']):
                 y = cast(cj, dt)
                 for i, x in enumerate(xs):
-                    xv = np.asarray(x, dtype=dt).ravel()
+                    xv = flat(x).astype(dt)
                     y = y + cast(s['A'][j][i], dt) @ xv + cast(s['Q'][j][i], dt) @ (xv * xv)
                 k = s['okind'][j]
                 if k == 'scal':
@@ -157,14 +157,14 @@ def make_poly_class(pym):
                 x = sig.state
                 cx = s['cx'] or np.iscomplexobj(x) or any(w is not None and np.iscomplexobj(w) for w in ws)
                 dt = complex if cx else float
-                xv = np.asarray(x, dtype=dt).ravel()
+                xv = flat(x).astype(dt)
                 acc = np.zeros(xv.size, dtype=dt)
                 for j, w in enumerate(ws):
                     if w is None:
                         continue
                     wv = np.broadcast_to(np.asarray(w, dtype=dt).ravel(), (len(s['c'][j]),))
                     acc = acc + cast(s['B'][j][i], dt).T @ wv + 2 * xv * (cast(s['Qb'][j][i], dt).T @ wv)
-                res.append(acc.reshape(np.shape(x)) if isinstance(x, np.ndarray) else acc[0])
+                res.append(acc.reshape(x.shape) if (isinstance(x, np.ndarray) or sp.issparse(x)) else acc[0])
             return res
     return Poly
 
@@ -417,6 +417,39 @@ def out_kind(data, o):
     return None, 0
 
 
+def subnetwork(mods, fromsig, tosig):
+    """(i_first, i_last) as the routine selects them (None when not found)"""
+    i_first, i_last = None, None
+    fr = {x['root'] for x in fromsig}
+    for i, m in enumerate(mods):
+        if i_first is None and fr & {x['root'] for x in m['ins']}:
+            i_first = i
+        if set(tosig) & set(m['outs']):
+            i_last = i
+    return i_first, i_last
+
+
+def sensible_request(mods, roots, fromsig, tosig, sources_only):
+    """the request the routine is written for: a non-empty sub-network whose inputs of interest are not produced
+    inside it and exist when it runs"""
+    i_first, i_last = subnetwork(mods, fromsig, tosig)
+    if i_first is None or i_last is None or i_last < i_first:
+        return False
+    inside = {o for m in mods[i_first:i_last + 1] for o in m['outs']}
+    before = {o for m in mods[:i_first] for o in m['outs']}
+    if any(o not in inside for o in tosig):
+        return False          # an output produced upstream keeps the seed after the call (pending finding 'upstream')
+    for x in fromsig:
+        r = x['root']
+        if r in inside:
+            return False
+        if roots[r]['value'] is None and r not in before:
+            return False
+        if sources_only and roots[r]['value'] is None:
+            return False
+    return True
+
+
 def gen_scenario(ctx, rng):
     cxfam = rng.random() < 0.35
     relative = rng.random() < 0.3
@@ -539,18 +572,30 @@ def gen_scenario(ctx, rng):
             if rng.random() < 0.4:
                 ins.append(dict(root=srcs[0][0], index=None))
             prev = new_module(ins, rng.randint(1, 2))
-        cands_in = [m_in for m in mods for m_in in m['ins']]
-        fromsig = [rng.choice(cands_in)]
-        if rng.random() < 0.3:
-            extra = rng.choice(cands_in)
-            if extra != fromsig[0]:
-                fromsig.append(extra)
+        def is_sparse_sig(ref):
+            for m in mods:
+                if ref['root'] in m['outs']:
+                    return is_sparse_kind(m['spec']['okind'][m['outs'].index(ref['root'])])
+            return False
+        cands_in = [m_in for m in mods for m_in in m['ins'] if not is_sparse_sig(m_in)]
         all_outs = [o for m in mods for o in m['outs']]
-        tosig = [rng.choice(all_outs)]
-        if rng.random() < 0.3:
-            o2 = rng.choice(all_outs)
-            if o2 not in tosig:
-                tosig.append(o2)
+        for attempt in range(50):
+            fromsig = [rng.choice(cands_in)]
+            if rng.random() < 0.3:
+                extra = rng.choice(cands_in)
+                if extra != fromsig[0]:
+                    fromsig.append(extra)
+            tosig = [rng.choice(all_outs)]
+            if rng.random() < 0.3:
+                o2 = rng.choice(all_outs)
+                if o2 not in tosig:
+                    tosig.append(o2)
+            if sensible_request(mods, roots, fromsig, tosig, relative and cxfam):
+                break
+            ctx.count('skipped:request-outside-subnetwork-contract')
+        else:
+            fromsig = [mods[0]['ins'][0]]
+            tosig = [mods[-1]['outs'][0]]
         if rng.random() < 0.04:
             lone = new_root(rand_value(rng, 'arr', (2,), cxfam, relative), None)      # used / produced by no module
             if rng.random() < 0.5:
@@ -772,8 +817,12 @@ def oracle(ctx, pym, Poly, results, more=False):
                 a, b = sc.roots[i].state, ref.roots[i].state
                 if not np.array_equal(np.asarray(a), np.asarray(b)):
                     bad('every input state is restored exactly', 'restore', str(b), str(a))
+            sliced = {x['root'] for m in nd['mods'] for x in m['ins'] if x.get('index') is not None}
             for i, r in enumerate(sc.roots):
                 s = r.sensitivity
+                if nd['roots'][i].get('sens') is not None:
+                    continue      # a sensitivity that was there before the call (stale entries outside the slices / outside
+                    #               the selected sub-network are not the routine's); the correspondence compares them exactly
                 if s is not None and np.any(flat(s) != 0):
                     bad('no sensitivity is left set after the call', 'restore', None, str(s))
             # (b) tuple count
